@@ -121,5 +121,112 @@ func verifControlCONC2Bad(data []float64, size int, f func(i int, v float64) flo
 	return res
 }
 `,
+		"modeling/marching/zz_verif_control_c10.go": `package marching
+
+import "sync"
+
+type verifControlState struct {
+	blocks [][]float64
+	mu     *sync.Mutex
+}
+
+func (s *verifControlState) verifControlAdd() int {
+	s.mu.Lock()
+	defer s.mu.Unlock()
+	s.blocks = append(s.blocks, make([]float64, 4))
+	return len(s.blocks) - 1
+}
+
+func (s *verifControlState) verifControlBlock(i int) []float64 {
+	s.mu.Lock()
+	defer s.mu.Unlock()
+	return s.blocks[i]
+}
+
+// must fire CONC-1: the block list is read after the mutex was released
+func (s *verifControlState) verifControlCONC1Bad(n int) {
+	jobs := make(chan int, n)
+	results := make(chan int, n)
+	for w := 0; w < 4; w++ {
+		go func() {
+			for j := range jobs {
+				i := s.verifControlAdd()
+				b := s.blocks[i]
+				b[0] = float64(j)
+				results <- j
+			}
+		}()
+	}
+	for i := 0; i < n; i++ {
+		jobs <- i
+	}
+	close(jobs)
+	for i := 0; i < n; i++ {
+		<-results
+	}
+}
+
+// must stay silent: the read happens in a locked helper
+func (s *verifControlState) verifControlCONC1Good(n int) {
+	jobs := make(chan int, n)
+	results := make(chan int, n)
+	for w := 0; w < 4; w++ {
+		go func() {
+			for j := range jobs {
+				b := s.verifControlBlock(s.verifControlAdd())
+				b[0] = float64(j)
+				results <- j
+			}
+		}()
+	}
+	for i := 0; i < n; i++ {
+		jobs <- i
+	}
+	close(jobs)
+	for i := 0; i < n; i++ {
+		<-results
+	}
+}
+
+// must fire JOB-1: one result is never drained
+func (s *verifControlState) verifControlJOB1Bad(n int) {
+	jobs := make(chan int, n)
+	results := make(chan int, n)
+	for w := 0; w < 4; w++ {
+		go func() {
+			for j := range jobs {
+				results <- j
+			}
+		}()
+	}
+	for i := 0; i < n; i++ {
+		jobs <- i
+	}
+	close(jobs)
+	for i := 1; i < n; i++ {
+		<-results
+	}
+}
+
+// must stay silent
+func (s *verifControlState) verifControlJOB1Good(n int) {
+	jobs := make(chan int, n)
+	results := make(chan int, n)
+	for w := 0; w < 4; w++ {
+		go func() {
+			for j := range jobs {
+				results <- j
+			}
+		}()
+	}
+	for i := 0; i < n; i++ {
+		jobs <- i
+	}
+	close(jobs)
+	for i := 0; i < n; i++ {
+		<-results
+	}
+}
+`,
 	}
 }
